@@ -2,9 +2,9 @@
 # evaluate all delivered seeds of the given property ids sequentially (background friendly)
 for id in "$@"; do
   for n in 1 2; do
-    if [ -f /tmp/seed/$id/OUT/patch$n.diff ] && [ -f /tmp/seed/$id/OUT/meta$n.json ]; then
-      /verif/tools_seed.py $id $n > /tmp/seed/$id.eval$n.log 2>&1
+    if [ -f ${SEED_ROOT:-/tmp/seed}/$id/OUT/patch$n.diff ] && [ -f ${SEED_ROOT:-/tmp/seed}/$id/OUT/meta$n.json ]; then
+      /verif/tools_seed.py $id $n > ${SEED_ROOT:-/tmp/seed}/$id.eval$n.log 2>&1
     fi
   done
 done
-echo finished > /tmp/seed/evalall.$$.done
+echo finished > ${SEED_ROOT:-/tmp/seed}/evalall.$$.done
